@@ -349,7 +349,13 @@ def force_shapes(rng, topo, flavour, g):
     do({'op': 'add_child_interface', 'iface': [n1, c + '-p1'], 'name': s2, 'node_id': nid('sub'), 'kw': {'labels': {'vlan': '101'}}})
     if not sub:
         sa, sb = g.fresh('fs'), g.fresh('fs')
-        do({'op': 'add_network_service', 'name': sa, 'node_id': None, 'nstype': 'L2Bridge', 'interfaces': [[n1, c + '-p1', s1], [n1, c + '-p2']]})
+        second = [n1, c + '-p2']
+        if rng.random() < 0.5:
+            # sub-interface names are unique within their parent port only: the same name under the other port, attached to
+            # the same service, gives that service two ports of one name
+            if do({'op': 'add_child_interface', 'iface': [n1, c + '-p2'], 'name': s1, 'node_id': None, 'kw': {'labels': {'vlan': '100'}}}):
+                second = [n1, c + '-p2', s1]
+        do({'op': 'add_network_service', 'name': sa, 'node_id': None, 'nstype': 'L2Bridge', 'interfaces': [[n1, c + '-p1', s1], second]})
         do({'op': 'add_network_service', 'name': sb, 'node_id': None, 'nstype': 'L2STS', 'interfaces': [[n1, c + '-p1', s2]]})
         do({'op': 'peer', 'a': sa, 'b': sb})
     else:
